@@ -40,6 +40,12 @@ CLAIMED = {
          "bounds: 3 producers; counts enumerated; native replay of a schedule / map-order violation is by repetition (goroutines hammering rand.Int for 5 s; up to 500 re-rankings) and therefore probabilistic; getRandomDposV2Producers, getSortedProducersDposV2 (float vote rights) and the statement's call-graph clause ('all consensus code paths') are not decided"),
  "C13": ("4 C13", "Per-transaction database processors (every type that defines GetSaveProcessor/GetRollbackProcessor: WithdrawFromSideChain V0/V1/V2, CRCProposal, CRCProposalReview, CRCProposalTracking) run against an in-memory database.Tx/Bucket with a symbolic pre-existing unrelated entry and fully symbolic 32-byte keys: connect stores every key; disconnect removes exactly those keys and leaves the unrelated entry; every payload version the save side handles has a rollback side.",
          "bounds: <= 2 side-chain hashes, 1..2-byte data values, one pre-existing entry; the block-level indexers (UnspentIndex, UtxoIndex, TxIndex, ReturnDepositIndex) and ffldb itself are not encoded — 'disconnect undoes connect' is decided for the per-transaction processors only"),
+ "C12": ("4 C12", "Decision kernel of chain selection: BlockChain.connectBestChain / getReorganizeNodes on block trees built in the harness (fork 1..3 blocks below the tip, side branch of 1..3 blocks, arbitrary base height, arbitrary cumulative work on both tips as math/big values, arbitrary DPoS state) over a store seam that fails at its first access: a tip with equal or less work never replaces the best chain and never touches the store; a tip with strictly more work triggers a reorganisation unless irreversibility forbids it; the reorganisation starts at the current tip and works from exactly the old branch above the fork (tip first) and the new branch (fork first); the store failure is reported.",
+         "bounds: trees of <= 4 main + 3 side nodes; cumulative work < 2^16; everything below the first store access (disconnectBlock / connectBlock, checkpoint rollback, failure atomicity of a partially executed reorganisation — suspected to leave a partial chain, not decided), orphan handling and block validity are outside the claim: the whole-node statement over delivered block sequences is NOT decided"),
+ "C21": ("4 C21", "Self-contained scalar sub-state of the DPoS state: State.tryUpdateLastIrreversibleHeight with the real utils.History from an arbitrary pre-state of LastIrreversibleHeight, DPOSStartHeight, DPOSWorkHeight, consensus algorithm and RevertToPOWStartHeight: process(h); Commit(h); RollbackTo(h-1) restores all four fields; LastIrreversibleHeight never decreases across process(h) and the invariant LastIrreversibleHeight <= DPOSStartHeight <= h+1 is inductive.",
+         "bounds: one block; all uint32 values; the ~70 History.Append sites of dpos/state that touch maps and producers (whose inverse property needs transaction-validity preconditions) are not encoded — the general statement over generated block histories is NOT decided"),
+ "C30": ("4 C30", "State.IsIrreversible for arbitrary heights: whenever it lets a reorganisation of d blocks below a tip at height cur proceed (past CRCOnlyDPOSHeight), no detached height is at or below LastIrreversibleHeight. connectBestChain on the C12 block trees with a recording store seam: a reorganisation is attempted only if the lowest block it would detach lies above LastIrreversibleHeight. LastIrreversibleHeight itself never decreases (C21 harness).",
+         "bounds: as C12 (trees of <= 7 nodes); heights at or below CRCOnlyDPOSHeight are exempt as in the code; BlockChain.ReorganizeChain (only caller is an unreachable branch of mempool.CheckConfirmedBlockOnFork) passes the new block's height to the guard and is not encoded"),
 }
 
 # thorough tier (deeper bounds + every unsat cross-checked with z3 5.1.0) is
@@ -53,17 +59,14 @@ NA = {
  "C07": "merkle root binding needs collision-freedom of SHA-256, which an uninterpreted function does not give (the solver may pick a colliding interpretation); structural checks not built",
  "C08": "same obstacle as C07 (hash injectivity) plus recursive tree traversal over symbolic sizes; not built",
  "C10": "commitment soundness needs hash injectivity (see C07); the crash-freedom half of AuxPow.Check is claimed under C03",
- "C12": "chain selection over histories of forks against a database-backed BlockChain: cannot be constructed symbolically within reach; decision kernel not built",
  "C14": "indexers read and write ffldb buckets: not encodable (see C13)",
  "C15": "cache transparency is a history property over go-cache / map-backed structures with database fall-through: not built",
  "C16": "ffldb over leveldb + treap with real file I/O: the code the property depends on cannot be encoded",
- "C21": "State.processTransactions over full blocks: too large to execute symbolically; self-contained sub-state harness not built",
  "C22": "same as C21 for cr/state",
  "C23": "checkpoint Serialize/Deserialize round trip over maps of producers: encodable in principle, not built in this session",
  "C27": "reward distribution is float64 accumulation over vote maps: sum-of-floor queries are unknown >300 s in all three solvers (probed), so no sound bound can be stated",
  "C28": "history property over State; check-arithmetic kernel not built in this session",
  "C29": "history property over proposal manager; not built in this session",
- "C30": "needs BlockChain.ReorganizeChain against a database-backed chain: not encodable; IsIrreversible kernel not built",
  "C33": "Schnorr aggregate verification is elliptic-curve arithmetic (see C05); single-use half is a history property; not built",
  "C34": "mempool structures are map/slice heaps driven by histories; not built in this session",
  "C37": "ECDSA/Schnorr signing and base58: elliptic-curve and big-radix string arithmetic out of solver reach",
